@@ -126,7 +126,7 @@ func prefixRecord(v int64, shift uint) record {
 // ---- judging
 
 var propertyLevel = map[string]bool{
-	"SplitWellFormed": true, "SplitCover": true, "FloatInverse": true, "FloatMonotone": true,
+	"SplitWellFormed": true, "SplitCover": true, "SplitEnumTerminates": true, "FloatInverse": true, "FloatMonotone": true,
 	"PrefixDecode": true, "QueryExact": true, "SortComplete": true, "SortOrdered": true,
 }
 var modelAssumption = map[string]bool{"FloatOrderModel": true, "FloatDigitsModel": true}
@@ -140,7 +140,7 @@ func report(c *core.Ctx, r record, inv string) {
 	case modelAssumption[inv]:
 		c.Inconclusive(fmt.Sprintf("model assumption %s does not hold for %v", inv, r.cs))
 	default:
-		c.Drift(fmt.Sprintf("%s: real output differs from the transcription bit for bit while the property invariants hold (%s)", inv, abbreviate(core.Canon(r.cs), 300)))
+		c.Drift(fmt.Sprintf("%s: the real output is not what the transcription computes (bit for bit / range shape) while the property invariants hold (%s)", inv, abbreviate(core.Canon(r.cs), 300)))
 	}
 }
 
